@@ -19,9 +19,14 @@
  *   H  table histories: sequences of successful and failing register_init
  *      calls (eight ways to fail, one in the other byte order) ending in a successful one, followed by one
  *      other call of the register API (sanitise, block access, bit
- *      operations, iteration ..., also with failing area callbacks) before
- *      the sets under test: nothing may leak from an earlier call into the
+ *      operations, iteration ..., also with failing area callbacks; sanitise
+ *      that repairs -- or, its write refused, fails to repair -- the register
+ *      under test or a range-constrained neighbour whose words were changed
+ *      out of band) before the sets under test: nothing may leak from an earlier call into the
  *      decision of a later set.
+ *
+ * A table that register_init refuses ends its case as a trivial one
+ * (init-refused): whether a description is accepted is C04's sentence.
  */
 #include "mc.h"
 #include "regtab.h"
@@ -35,7 +40,7 @@
     "closed value set; value objects with 4 fill patterns / 24 previous wider values assigned / 12 fetched with register_get, x "   \
     "entry bounds clean/with the same past) + 49 area geometries (1..4 areas, register in every area, every subset of the others "  \
     "empty) x register area mem/cb x load/skip defaults x 6 styles of the other areas x register between two guards / alone in its area x 6 constraint kinds x init histories {ok; ok,ok} + 6 geometries x all init histories of <= 2 "   \
-    "steps over 10 step kinds x 25 intervening API calls"
+    "steps over 10 step kinds x 29 intervening API calls (incl. sanitise repairing / failing to repair a range-constrained neighbour of the register)"
 #define BOUND_THOROUGH                                                                                                           \
     BOUND_QUICK " + all 16-bit values in 3 stale objects + geometries x (all constraint configurations | all gap patterns) "     \
                 "+ init histories of <= 3 steps + all 2^32 patterns of u32/s32/f32 under a range constraint x LE/BE"
@@ -588,7 +593,7 @@ run_config(RegisterType rt, bool be, bool cb, const struct cfg *c, int ci)
     make_values(rt, c);
     const struct rspec *rs = &s.r[1];
 
-    bool built = false;
+    bool built = false, refused = false;
 #define ENSURE_TABLE()                                                                   \
     do {                                                                                 \
         if (!built) {                                                                    \
@@ -604,28 +609,29 @@ run_config(RegisterType rt, bool be, bool cb, const struct cfg *c, int ci)
             }                                                                            \
             RegisterInit ri = register_init(&tb.t);                                      \
             built = true;                                                                \
-            if (ri.code != REG_INIT_SUCCESS) {                                           \
-                mc_fail("C01/setup-init", "register_init of a well-formed table failed with %d", ri.code); \
-                mc_end(false, "init-failed");                                            \
-                tab_free(&tb);                                                           \
-                return;                                                                  \
-            }                                                                            \
+            /* whether initialisation accepts the table is C04's sentence: the       \
+             * cases of this configuration then end as trivial ones */                \
+            refused = ri.code != REG_INIT_SUCCESS;                                       \
         }                                                                                \
     } while (0)
 
     /* (1) handles and type mismatch */
     if (mc_case("cfg#%d %s handles+types", ci, cdesc)) {
         ENSURE_TABLE();
-        bool ok = bad_handles(rt, c->def, NULL);
-        ok = ok && type_mismatches(rt, rs, NULL);
-        mc_end(true, ok ? "handles-ok" : "handles-fail");
+        if (refused)
+            mc_end(false, "init-refused");
+        else {
+            bool ok = bad_handles(rt, c->def, NULL);
+            ok = ok && type_mismatches(rt, rs, NULL);
+            mc_end(true, ok ? "handles-ok" : "handles-fail");
+        }
     }
 
     /* (2) 16-bit types: every value, from the default state */
     if (sz == 1) {
         if (mc_case("cfg#%d %s all 65536 values", ci, cdesc)) {
             ENSURE_TABLE();
-            bool ok = true;
+            bool ok = !refused;
             long nacc = 0;
             for (uint32_t b = 0; b < 65536 && ok; ++b)
                 for (int checked = 1; checked >= 0 && ok; --checked) {
@@ -633,6 +639,9 @@ run_config(RegisterType rt, bool be, bool cb, const struct cfg *c, int ci)
                     ok = one_set(rt, rs, rt, b, checked, NULL, &accd);
                     nacc += accd;
                 }
+            if (refused)
+                mc_end(false, "init-refused");
+            else
             mc_end(true, nacc == 0 ? "sweep-none-accepted" : nacc == 131072 ? "sweep-all-accepted" : "sweep-mixed");
         }
     }
@@ -645,6 +654,10 @@ run_config(RegisterType rt, bool be, bool cb, const struct cfg *c, int ci)
         if (!mc_case("cfg#%d %s pairs pre=%016llx x %d values", ci, cdesc, (unsigned long long)V[ia], nV))
             continue;
         ENSURE_TABLE();
+        if (refused) {
+            mc_end(false, "init-refused");
+            continue;
+        }
         bool ok = true;
         long nacc = 0, nref = 0;
         for (int ib = 0; ib < nV && ok; ++ib)
@@ -708,8 +721,8 @@ run_stale(RegisterType rt, bool be, bool cb, const struct cfg *c, int ci)
                 dirty_bounds(rt, c, &ST[si].img);
             RegisterInit ri = register_init(&tb.t);
             if (ri.code != REG_INIT_SUCCESS) {
-                mc_fail("C01/setup-init", "register_init of a well-formed table failed with %d", ri.code);
-                mc_end(false, "init-failed");
+                mc_log("register_init refused the table with %d (C04 judges that)", ri.code);
+                mc_end(false, "init-refused");
                 tab_free(&tb);
                 continue;
             }
@@ -739,8 +752,8 @@ run_stale16(RegisterType rt, bool be, bool cb, const struct cfg *c, int ci)
         tab_build(&tb, &s);
         RegisterInit ri = register_init(&tb.t);
         if (ri.code != REG_INIT_SUCCESS) {
-            mc_fail("C01/setup-init", "register_init of a well-formed table failed with %d", ri.code);
-            mc_end(false, "init-failed");
+            mc_log("register_init refused the table with %d (C04 judges that)", ri.code);
+            mc_end(false, "init-refused");
             tab_free(&tb);
             continue;
         }
@@ -805,6 +818,7 @@ geo_class(const struct geo *g)
  * read-only, 3 callbacks read-only without write callback, 4 memory RW with
  * skip-defaults, 5 callbacks write-only. */
 #define NOSTYLE 6
+static bool g_guards_ranged; /* the guards next to the register under test carry a range constraint (around their defaults) */
 static const char *RB_NAME[] = { "mem", "cb", "mem-skipdef", "cb-skipdef" };
 static void
 geo_spec(struct tspec *s, const struct geo *g, unsigned gaps, uint32_t base0, RegisterType rt, bool be, int rb, int ostyle, bool rotate,
@@ -824,11 +838,15 @@ geo_spec(struct tspec *s, const struct geo *g, unsigned gaps, uint32_t base0, Re
             s->a[i] = (struct aspec){ a, size, (uint16_t)(REG_AF_RW | ((rb & 2) ? REG_AF_SKIP_DEFAULTS : 0)), (rb & 1) != 0, false };
             rut_a = i;
             rut_off = alone ? 0 : 1;
-            if (!alone)
+            if (!alone && g_guards_ranged)
+                s->r[s->nr++] = (struct rspec){ REG_TYPE_UINT16, a, K_RANGE, vu_int(REG_TYPE_UINT16, 0x1000), vu_int(REG_TYPE_UINT16, 0x1fff), vu_int(REG_TYPE_UINT16, 0x1111) };
+            else if (!alone)
                 s->r[s->nr++] = (struct rspec){ REG_TYPE_UINT16, a, K_NONE, vu_zero(), vu_zero(), vu_int(REG_TYPE_UINT16, 0x1111) };
             rut_h = (RegisterHandle)s->nr;
             s->r[s->nr++] = (struct rspec){ rt, a + rut_off, c->ckind, c->lo, c->hi, c->def };
-            if (!alone)
+            if (!alone && g_guards_ranged)
+                s->r[s->nr++] = (struct rspec){ REG_TYPE_UINT16, a + 1 + sz, K_RANGE, vu_int(REG_TYPE_UINT16, 0x2000), vu_int(REG_TYPE_UINT16, 0x2fff), vu_int(REG_TYPE_UINT16, 0x2222) };
+            else if (!alone)
                 s->r[s->nr++] = (struct rspec){ REG_TYPE_UINT16, a + 1 + sz, K_NONE, vu_zero(), vu_zero(), vu_int(REG_TYPE_UINT16, 0x2222) };
         } else {
             const int st = rotate ? (ostyle + i) % NOSTYLE : ostyle;
@@ -935,26 +953,33 @@ init_step(int op)
 enum {
     OP_NONE, OP_SANITISE, OP_SANITISE_RF0, OP_SANITISE_RF1, OP_SANITISE_RF2, OP_SANITISE_RF3, OP_SANITISE_RF4, OP_SANITISE_RF5,
     OP_POKE_SANITISE, OP_POKE_SANITISE_WF, OP_BW_OK, OP_BW_REFUSED, OP_BW_HOLE, OP_BW_RF, OP_BW_WF, OP_BR, OP_BR_RF,
-    OP_DEFAULT, OP_BITS, OP_HEXSTR, OP_FOREACH, OP_COMPARE, OP_GET_RF, OP_SET_WF, OP_MCOPY, OP_N
+    OP_DEFAULT, OP_BITS, OP_HEXSTR, OP_FOREACH, OP_COMPARE, OP_GET_RF, OP_SET_WF, OP_MCOPY,
+    /* sanitise that has to repair a NEIGHBOUR of the register under test (the
+     * guard in front of / behind it, which for these calls is a range-
+     * constrained u16 whose words were changed behind the table's back), and
+     * the same with the write callback refusing the repair */
+    OP_NBR_LEAD_SANITISE, OP_NBR_LEAD_SANITISE_WF, OP_NBR_TRAIL_SANITISE, OP_NBR_TRAIL_SANITISE_WF, OP_N
 };
 static const char *OP_NAME[] = {
     "nothing", "sanitise", "sanitise/read-fault@0", "sanitise/read-fault@1", "sanitise/read-fault@2", "sanitise/read-fault@3",
     "sanitise/read-fault@4", "sanitise/read-fault@5", "poke+sanitise", "poke+sanitise/write-fault", "block-write", "block-write-refused",
     "block-write-hole", "block-write/read-fault", "block-write/write-fault", "block-read", "block-read/read-fault", "default",
-    "bit-set+clear", "hexstr", "foreach+user-init-stopped", "compare", "get/read-fault", "set/write-fault", "mcopy"
+    "bit-set+clear", "hexstr", "foreach+user-init-stopped", "compare", "get/read-fault", "set/write-fault", "mcopy",
+    "poke-leading-neighbour+sanitise", "poke-leading-neighbour+sanitise/write-fault", "poke-trailing-neighbour+sanitise", "poke-trailing-neighbour+sanitise/write-fault"
 };
 static const char *OP_OUTCOME[] = {
     "after-nothing", "after-sanitise", "after-sanitise-fault", "after-sanitise-fault", "after-sanitise-fault", "after-sanitise-fault",
     "after-sanitise-fault", "after-sanitise-fault", "after-sanitise-reload", "after-sanitise-reload-fault", "after-block-write", "after-block-write",
     "after-block-write", "after-block-fault", "after-block-fault", "after-block-read", "after-block-fault", "after-default",
-    "after-bits", "after-hexstr", "after-iteration", "after-compare", "after-access-fault", "after-access-fault", "after-mcopy"
+    "after-bits", "after-hexstr", "after-iteration", "after-compare", "after-access-fault", "after-access-fault", "after-mcopy",
+    "after-sanitise-nbr-reload", "after-sanitise-nbr-fault", "after-sanitise-nbr-reload", "after-sanitise-nbr-fault"
 };
 
 static bool
 op_needs_cb(int op)
 {
     return (op >= OP_SANITISE_RF0 && op <= OP_SANITISE_RF5) || op == OP_POKE_SANITISE_WF || op == OP_BW_RF || op == OP_BW_WF
-        || op == OP_BR_RF || op == OP_GET_RF || op == OP_SET_WF;
+        || op == OP_BR_RF || op == OP_GET_RF || op == OP_SET_WF || op == OP_NBR_LEAD_SANITISE_WF || op == OP_NBR_TRAIL_SANITISE_WF;
 }
 
 static bool
@@ -1090,6 +1115,18 @@ other_call(int op, RegisterType rt, const struct rspec *rs)
         arm(-1, 0);
         (void)register_set(&tb.t, rut_h - 1, mkval(NULL, REG_TYPE_UINT16, 0x1111));
         break;
+    case OP_NBR_LEAD_SANITISE: case OP_NBR_LEAD_SANITISE_WF: case OP_NBR_TRAIL_SANITISE: case OP_NBR_TRAIL_SANITISE_WF: {
+        /* the neighbour's words are changed behind the table's back to a value
+         * outside its range (0); sanitise has to put its default back, and in
+         * the fault variants the area's write callback refuses that */
+        const bool lead = op == OP_NBR_LEAD_SANITISE || op == OP_NBR_LEAD_SANITISE_WF;
+        ref_image(REG_TYPE_UINT16, 0, tb.s.be, img);
+        memcpy(tb.store[rut_a] + (lead ? 0 : rut_off + sz), img, 2);
+        if (op == OP_NBR_LEAD_SANITISE_WF || op == OP_NBR_TRAIL_SANITISE_WF)
+            arm(-1, 0);
+        a = register_sanitise(&tb.t);
+        break;
+    }
     case OP_MCOPY: {
         const AreaHandle other = (AreaHandle)(rut_a == 0 ? 1 : rut_a - 1);
         a = register_mcopy(&tb.t, other, (AreaHandle)rut_a);
@@ -1123,7 +1160,9 @@ geo_case(const char *block, const struct geo *g, unsigned gaps, uint32_t base0, 
         mc_skip_case();
         return;
     }
+    g_guards_ranged = op >= OP_NBR_LEAD_SANITISE && op <= OP_NBR_TRAIL_SANITISE_WF;
     geo_spec(&s, g, gaps, base0, rt, be, rb, ostyle, rotate, alone, c);
+    g_guards_ranged = false;
     char hd[96];
     size_t l = 0;
     hd[0] = 0;
@@ -1142,8 +1181,8 @@ geo_case(const char *block, const struct geo *g, unsigned gaps, uint32_t base0, 
     for (int i = 0; i < nh; ++i)
         ri = init_step(hist[i]);
     if (ri.code != REG_INIT_SUCCESS) {
-        mc_fail("C01/setup-init", "register_init of a well-formed table failed with %d", ri.code);
-        mc_end(false, "init-failed");
+        mc_log("register_init refused the table with %d (C04 judges that)", ri.code);
+        mc_end(false, "init-refused");
         tab_free(&tb);
         return;
     }
@@ -1255,8 +1294,11 @@ small_tables(void)
                         RegisterInit ri = register_init(&tb.t);
                         bool ok = true;
                         if (ri.code != REG_INIT_SUCCESS) {
-                            mc_fail("C01/setup-init", "register_init of a well-formed table failed with %d", ri.code);
-                            ok = false;
+                            /* whether initialisation accepts a table is C04's sentence, not C01's */
+                            mc_log("register_init refused the table with %d", ri.code);
+                            tab_free(&tb);
+                            mc_end(false, "init-refused");
+                            continue;
                         }
                         static const RegisterHandle H[] = { 0, 1, 2, 3, 0x80000000u, 0xffffffffu };
                         for (unsigned hi = 0; hi < 6 && ok; ++hi)
@@ -1311,19 +1353,19 @@ sweep32(RegisterType rt, bool be)
     s.r[1] = (struct rspec){ rt, 1, c.ckind, c.lo, c.hi, c.def };
     s.r[2] = (struct rspec){ REG_TYPE_UINT16, 1 + sz, K_NONE, vu_zero(), vu_zero(), vu_int(REG_TYPE_UINT16, 0x2222) };
     rut_simple();
-    bool built = false;
+    bool built = false, refused = false;
     for (uint32_t chunk = 0; chunk < 4096; ++chunk) {
         if (!mc_case("sweep32 %s %s range patterns %05x000..%05xfff", TYPE_NAME[rt], be ? "BE" : "LE", chunk, chunk))
             continue;
         if (!built) {
             tab_build(&tb, &s);
-            if (register_init(&tb.t).code != REG_INIT_SUCCESS) {
-                mc_fail("C01/setup-init", "register_init failed");
-                mc_end(false, "init-failed");
-                tab_free(&tb);
-                return;
-            }
+            refused = register_init(&tb.t).code != REG_INIT_SUCCESS;
             built = true;
+        }
+        if (refused) {
+            mc_log("register_init refused the table (C04 judges that)");
+            mc_end(false, "init-refused");
+            continue;
         }
         bool ok = true;
         long nacc = 0;
